@@ -135,10 +135,14 @@ def compare_twins(rr: RuleResult, fa: FuncInfo, fb: FuncInfo, rename, exceptions
                 oa.remove(t)
                 ob.remove(u)
                 break
+    used = {}
     for side, only, src, fi, other in (("first", oa, ta, fa, fb), ("second", ob, tb, fb, fa)):
         for t in only:
             key = f"{pair}:test:{t}"
-            if key in exceptions:
+            # a table entry stands for ONE confirmed extra test, not for every test of that normalised form: a second
+            # unmatched `len(desc) == N` (the twin lost its own length guard) is a finding
+            if key in exceptions and not used.get(key):
+                used[key] = 1
                 rr.exceptions_used.append(f"{key} - {exceptions[key]}")
                 continue
             node = next(n for x, n in src if x == t)
